@@ -3091,11 +3091,9 @@ class quantized_relu_po2(base_quantizer.BaseQuantizer):  # pylint: disable=inval
     if self.negative_slope == 0.0:
       return 2**self._min_exp
 
-    unsigned_bits = self.bits - 1
-    if unsigned_bits > 0:
-      return min(2**self._min_exp, - self.negative_slope * np.power(2.0, unsigned_bits))
-    else:
-      return 2**self._min_exp
+    # negative inputs are quantized to -2**e with the same exponent range and
+    # max_value clamp as the positive side
+    return -self.max()
 
   @classmethod
   def from_config(cls, config):
